@@ -411,4 +411,6 @@ func runC05(r *an.Run) {
 				}
 			}
 		})
+
+	scriptPathPairs(r, "C05", 4)
 }
